@@ -414,9 +414,19 @@ func (s *clientPeerTracker) execute(ctx context.Context) error {
 	// errCh contains any errors
 	errCh := make(chan error, 2)
 
+	// ended is set, under the tracker lock, when this call of execute returns.
+	// The reader goroutine below may still be handling a response at that
+	// point: it must not touch the state of the session that follows.
+	var ended bool
+
 	// handleClose handles cleaning up when the session is closed.
-	handleClose := func() {
+	// final is set when execute returns.
+	handleClose := func(final bool) {
 		s.bcast.HoldLock(func(broadcast func(), getWaitCh func() <-chan struct{}) {
+			if ended {
+				return
+			}
+			ended = final
 			if s.open != nil {
 				s.open = nil
 				broadcast()
@@ -435,6 +445,9 @@ func (s *clientPeerTracker) execute(ctx context.Context) error {
 	// handleOpen handles when the session is opened.
 	handleOpen := func(seqno uint64) {
 		s.bcast.HoldLock(func(broadcast func(), getWaitCh func() <-chan struct{}) {
+			if ended {
+				return
+			}
 			if s.open == nil || *s.open != seqno {
 				s.le.Debugf("signaling: client: session opened with seqno %v", seqno)
 				s.open = &seqno
@@ -461,6 +474,9 @@ func (s *clientPeerTracker) execute(ctx context.Context) error {
 		}
 
 		s.bcast.HoldLock(func(broadcast func(), getWaitCh func() <-chan struct{}) {
+			if ended {
+				return
+			}
 			// s.le.Debugf("signaling: client: recv msg: %v", msg.String())
 			s.recv, s.recvProcessed = msg, false
 			broadcast()
@@ -473,6 +489,9 @@ func (s *clientPeerTracker) execute(ctx context.Context) error {
 	handleClearMsg := func(msgSeqno uint64) {
 		s.bcast.HoldLock(func(broadcast func(), getWaitCh func() <-chan struct{}) {
 			// s.le.Debugf("signaling: client: remote cleared msg: %v", msgSeqno)
+			if ended {
+				return
+			}
 			if s.recv != nil && s.recv.Seqno == msgSeqno {
 				s.recv, s.recvProcessed = nil, false
 				broadcast()
@@ -484,6 +503,9 @@ func (s *clientPeerTracker) execute(ctx context.Context) error {
 	handleAckMsg := func(msgSeqno uint64) {
 		s.bcast.HoldLock(func(broadcast func(), getWaitCh func() <-chan struct{}) {
 			// s.le.Debugf("signaling: client: remote acked msg: %v", msgSeqno)
+			if ended {
+				return
+			}
 			if s.out != nil && s.out.Seqno == msgSeqno {
 				if s.outCancel {
 					s.out, s.outAcked, s.outCancel, s.outSent = nil, false, false, false
@@ -498,7 +520,7 @@ func (s *clientPeerTracker) execute(ctx context.Context) error {
 	// Mark as closed when this function returns.
 	defer func() {
 		_ = sess.Close()
-		handleClose()
+		handleClose(true)
 	}()
 
 	// Request a session with the remote peer.
@@ -525,7 +547,7 @@ func (s *clientPeerTracker) execute(ctx context.Context) error {
 			switch b := resp.GetBody().(type) {
 			case *signaling_rpc.SessionResponse_Closed:
 				if b.Closed {
-					handleClose()
+					handleClose(false)
 				}
 			case *signaling_rpc.SessionResponse_Opened:
 				handleOpen(b.Opened)
